@@ -286,6 +286,104 @@ fn main() {
             let other = t.get(5).map(|s| s.to_string());
             isolated(move || stress(&path, other.as_deref(), &names, &contents, th, it, sd), 60)
         }
+        // modhist <dir> <ops ,>: the same modification history through the C API (SFileCreateArchive, SFileAddFileEx, SFileRemoveFile,
+        //   SFileRenameFile, SFileFlushArchive, SFileCompactArchive, SFileCloseArchive) and through the Rust API (ArchiveBuilder +
+        //   MutableArchive); per-operation outcomes and the contents of the two resulting archives must agree.
+        //   ops: a.<name>.<data>.<flags>.<compression> | r.<name> | m.<old>.<new> | f | c | e (SFileEnumFiles against Archive::list)
+        "modhist" => {
+            let dir = t[1].to_string();
+            let ops: Vec<String> = t[2].split(',').map(|x| x.to_string()).collect();
+            isolated(move || {
+                use wow_mpq::{AddFileOptions, ArchiveBuilder, FormatVersion, ListfileOption, MutableArchive};
+                use wow_mpq::compression::CompressionMethod;
+                let (pa, pb) = (format!("{dir}/ffi.mpq"), format!("{dir}/rust.mpq"));
+                let _ = std::fs::remove_file(&pa); let _ = std::fs::remove_file(&pb);
+                let ca = CString::new(pa.as_str()).unwrap();
+                let mut hd: HANDLE = std::ptr::null_mut();
+                // SFileCreateArchive2 hands out a writable handle (SFileCreateArchive reopens the new archive read-only)
+                let mut ci: SFILE_CREATE_MPQ = unsafe { std::mem::zeroed() };
+                ci.cb_size = std::mem::size_of::<SFILE_CREATE_MPQ>() as u32;
+                ci.mpq_version = 2; ci.file_flags_1 = 1; ci.sector_size = 3; ci.max_file_count = 16;
+                if !unsafe { SFileCreateArchive2(ca.as_ptr(), &ci, &mut hd) } { return format!("CREATE-FAIL {}", SFileGetLastError()); }
+                if ArchiveBuilder::new().version(FormatVersion::V2).block_size(3).listfile_option(ListfileOption::Generate).build(&pb).is_err() { return "RUST-CREATE-FAIL".to_string(); }
+                let mut mb = match MutableArchive::open(&pb) { Ok(m) => m, Err(_) => return "RUST-OPEN-FAIL".to_string() };
+                let mut names: Vec<String> = Vec::new();
+                for (k, op) in ops.iter().enumerate() {
+                    let p: Vec<&str> = op.split('.').collect();
+                    let s = |i: usize| String::from_utf8_lossy(&unhex(p[i])).to_string();
+                    let (fo, ro) = match p[0] {
+                        "a" => {
+                            let (name, data, flags, comp) = (s(1), if p[2] == "-" { Vec::new() } else { unhex(p[2]) }, num(p[3]) as u32, num(p[4]) as u32);
+                            if !names.contains(&name) { names.push(name.clone()); }
+                            let tmp = format!("{dir}/in{k}.bin");
+                            std::fs::write(&tmp, &data).unwrap();
+                            let (ct, cn) = (CString::new(tmp.as_str()).unwrap(), CString::new(name.as_str()).unwrap());
+                            let fo = unsafe { SFileAddFileEx(hd, ct.as_ptr(), cn.as_ptr(), flags, comp, 0) };
+                            let method = match comp { 0 => CompressionMethod::None, 0x02 => CompressionMethod::Zlib, 0x10 => CompressionMethod::BZip2, 0x12 => CompressionMethod::Lzma, 0x20 => CompressionMethod::Sparse, _ => CompressionMethod::Zlib };
+                            let mut o = AddFileOptions::new().compression(method);
+                            if flags & 0x0001_0000 != 0 { o = o.encrypt(); }
+                            if flags & 0x0002_0000 != 0 { o = o.fix_key(); }
+                            if flags & 0x8000_0000 != 0 { o = o.replace_existing(true); }
+                            (fo, mb.add_file_data(&data, &name, o).is_ok())
+                        }
+                        "r" => { let n = s(1); let cn = CString::new(n.as_str()).unwrap(); (unsafe { SFileRemoveFile(hd, cn.as_ptr(), 0) }, mb.remove_file(&n).is_ok()) }
+                        "m" => {
+                            let (a, b) = (s(1), s(2));
+                            if !names.contains(&b) { names.push(b.clone()); }
+                            let (c1, c2) = (CString::new(a.as_str()).unwrap(), CString::new(b.as_str()).unwrap());
+                            (unsafe { SFileRenameFile(hd, c1.as_ptr(), c2.as_ptr()) }, mb.rename_file(&a, &b).is_ok())
+                        }
+                        "f" => (unsafe { SFileFlushArchive(hd) }, mb.flush().is_ok()),
+                        "c" => (unsafe { SFileCompactArchive(hd, std::ptr::null(), false) }, mb.compact().is_ok()),
+                        _ => (true, true),
+                    };
+                    if fo != ro { return format!("OUTCOME op{k} {} ffi={} rust={}", p[0], fo as u8, ro as u8); }
+                }
+                if !SFileCloseArchive(hd) { return "CLOSE-FAIL".to_string(); }
+                drop(mb);
+                let (mut a, mut b) = match (Archive::open(&pa), Archive::open(&pb)) { (Ok(a), Ok(b)) => (a, b), (ra, rb) => return format!("REOPEN ffi={} rust={}", ra.is_ok() as u8, rb.is_ok() as u8) };
+                for n in &names {
+                    let (x, y) = (a.read_file(n).ok(), b.read_file(n).ok());
+                    if x != y { return format!("CONTENT {} ffi={:?} rust={:?}", hex(n.as_bytes()), x.map(|v| v.len()), y.map(|v| v.len())); }
+                }
+                let la: Vec<String> = { let mut v: Vec<String> = a.list().map(|l| l.iter().map(|e| e.name.to_uppercase()).collect()).unwrap_or_default(); v.sort(); v };
+                let lb: Vec<String> = { let mut v: Vec<String> = b.list().map(|l| l.iter().map(|e| e.name.to_uppercase()).collect()).unwrap_or_default(); v.sort(); v };
+                if la != lb { return format!("LISTING ffi={} rust={}", la.len(), lb.len()); }
+                format!("OK {}", names.len())
+            }, 60)
+        }
+        // enum <archive>: SFileEnumFiles with mask "*" must call back exactly once per name of Archive::list, in that order; a callback
+        //   returning false after k names stops the enumeration after k+1 calls; locale calls keep their value
+        "enum" => {
+            let path = t[1].to_string();
+            isolated(move || {
+                extern "C" fn cb(name: *const c_char, ud: *mut c_void) -> bool {
+                    let st = unsafe { &mut *(ud as *mut (Vec<String>, usize)) };
+                    st.0.push(unsafe { CStr::from_ptr(name) }.to_string_lossy().to_string());
+                    st.0.len() < st.1
+                }
+                let mut a = match Archive::open(&path) { Ok(a) => a, Err(_) => return "OPEN-ERR".to_string() };
+                let want: Vec<String> = a.list().map(|l| l.iter().map(|e| e.name.clone()).collect()).unwrap_or_default();
+                let cp = CString::new(path.as_str()).unwrap();
+                let mut hd: HANDLE = std::ptr::null_mut();
+                if !unsafe { SFileOpenArchive(cp.as_ptr(), 0, 0, &mut hd) } { return "OPEN-FAIL".to_string(); }
+                let star = CString::new("*").unwrap();
+                let mut st: (Vec<String>, usize) = (Vec::new(), usize::MAX);
+                if !unsafe { SFileEnumFiles(hd, star.as_ptr(), std::ptr::null(), Some(cb), &mut st as *mut _ as *mut c_void) } { return "ENUM-FAIL".to_string(); }
+                if st.0 != want { return format!("ENUM-DIFF {} {}", st.0.len(), want.len()); }
+                let mut st2: (Vec<String>, usize) = (Vec::new(), 2);
+                unsafe { SFileEnumFiles(hd, star.as_ptr(), std::ptr::null(), Some(cb), &mut st2 as *mut _ as *mut c_void) };
+                if st2.0.len() != want.len().min(2) { return format!("ENUM-STOP {}", st2.0.len()); }
+                if unsafe { SFileEnumFiles(hd, star.as_ptr(), std::ptr::null(), None, std::ptr::null_mut()) } { return "ENUM-NULL-CALLBACK-ACCEPTED".to_string(); }
+                let old = SFileSetLocale(0x409);
+                if SFileGetLocale() != 0x409 { return "LOCALE".to_string(); }
+                SFileSetLocale(old);
+                SFileSetLastError(1234);
+                if SFileGetLastError() != 1234 { return "LASTERROR".to_string(); }
+                unsafe { SFileCloseArchive(hd); }
+                format!("OK {}", want.len())
+            }, 30)
+        }
         // xtract <archive> <target file> <names hex ,>: SFileExtractFile of every name in turn to the SAME local path;
         // after each call the file on disk must equal Archive::read_file (missing names must fail and leave the file alone)
         "xtract" => {
